@@ -574,7 +574,42 @@ func init() {
 					}
 				}
 			}
+			for _, f := range []*FaultSpec{fault, fault2} {
+				// "declared output not produced" is meant for ordinary outputs (a stream
+				// that is never opened is another matter): aim at one of those
+				if f == nil || f.Mode != simrt.FailOmit || len(ex.StreamPaths) == 0 {
+					continue
+				}
+				for _, t := range ex.ByKey[f.Key] {
+					outs := w.Nodes[t.Node].Outs
+					var plain []int
+					for i, o := range outs {
+						if !o.Stream {
+							plain = append(plain, i)
+						}
+					}
+					if len(plain) == 0 {
+						f.Mode = simrt.FailExitBefore
+					} else {
+						f.Arg = plain[f.Arg%len(plain)]
+					}
+				}
+			}
+			if c.Tape.Choose(simrt.StGen, 16, 0) == 1 {
+				// one process gets a very long command line (more than a single argument
+				// of execve may hold): it may have to reach the shell by another route
+				for i := range w.Nodes {
+					if n := &w.Nodes[i]; n.Kind == KProc && n.Custom == 0 && (fault == nil || strings.HasPrefix(fault.Key, n.Name+"|")) {
+						n.LongArg = []int{70000, 140000}[c.Tape.Choose(simrt.StGen, 2, 0)]
+						c.Fault("very-long-command-line")
+						break
+					}
+				}
+			}
 			c.Sample = "crash-state enumeration" + what + ": " + sample(w)
+			if len(c.Sample) > 4000 {
+				c.Sample = c.Sample[:4000] + "..."
+			}
 			inc := RunInc(w, c.Tape, nil, 0, IncOpts{KillAt: -1, Strategy: strategyOf(c.Tape), Trace: c.Trace, Snapshots: true, Fault: fault, Fault2: fault2, DiskFullAt: diskFull})
 			c.Absorb(inc)
 			c.Tasks = max(c.Tasks, len(execKeys(inc.Sim.Shell.Trace, "start", 0)))
@@ -594,6 +629,19 @@ func init() {
 					}
 				}
 				tr = tr2
+			}
+			for _, f := range []*FaultSpec{fault, fault2} {
+				// a command that exits 0 without producing a declared output: the TASK
+				// has failed, none of its outputs may appear
+				if f != nil && f.Hit && f.Mode == simrt.FailOmit {
+					var tr2 []simrt.TraceEvent
+					for _, e := range tr {
+						if !(e.Kind == "exit" && e.Key == f.Key) {
+							tr2 = append(tr2, e)
+						}
+					}
+					tr = tr2
+				}
 			}
 			// consumers (and their descendants) of a streamed output of a failing task
 			streamFed := map[*RTask]bool{}
@@ -651,10 +699,15 @@ func splitterAtomicCase(c *Case) Verdict {
 	t := c.Tape
 	w := &WF{Name: "wf", Sources: map[string]string{}}
 	nf := 1 + t.Choose(simrt.StGen, 2, 0)
+	// (two inputs that share their base name, in different directories)
+	sameBase := nf == 2 && t.Choose(simrt.StGen, 2, 0) == 1
 	src := Node{Name: "src0", Kind: KFileSrc}
 	for i := 0; i < nf; i++ {
 		lines := t.Choose(simrt.StGen, 8, 0)
 		p := fmt.Sprintf("lines%d.txt", i)
+		if sameBase {
+			p = fmt.Sprintf("dir%d/lines.txt", i)
+		}
 		var b strings.Builder
 		for l := 0; l < lines; l++ {
 			fmt.Fprintf(&b, "file %d line %d %s\n", i, l, strings.Repeat("x", 3*l))
@@ -675,13 +728,53 @@ func splitterAtomicCase(c *Case) Verdict {
 	if v, ok := inconclusiveEnd(inc); ok {
 		return v
 	}
+	isPart := func(p string) bool {
+		return strings.Contains(p, ".txt.split_") && !strings.HasSuffix(p, ".audit.json") && !strings.Contains(p, ".use.")
+	}
+	// what a part may hold, computed from the input alone: part k of a file is its
+	// k-th block of SplitLines lines (one further, empty part may follow the last
+	// block). Checked in every crash state and at the end, also when the run
+	// stopped with an error.
+	L := w.NodeByName("split").SplitLines
+	expected := map[string]string{}
+	for _, f := range src.Files {
+		lines := strings.SplitAfter(w.Sources[f], "\n")
+		if len(lines) > 0 && lines[len(lines)-1] == "" {
+			lines = lines[:len(lines)-1]
+		}
+		k := 1
+		for i := 0; i < len(lines); i += L {
+			j := i + L
+			if j > len(lines) {
+				j = len(lines)
+			}
+			expected[Abs(fmt.Sprintf("%s.split_%d", f, k))] = strings.Join(lines[i:j], "")
+			k++
+		}
+		if _, ok := expected[Abs(fmt.Sprintf("%s.split_%d", f, k))]; !ok {
+			expected[Abs(fmt.Sprintf("%s.split_%d", f, k))] = "" // (a trailing empty part)
+		}
+	}
+	states := append([]Snap{}, inc.Snaps...)
+	states = append(states, Snap{Root: inc.Sim.FS.Root, JSeq: 1 << 30})
+	for _, sn := range states {
+		for p, e := range WorkFiles(sn.Root) {
+			if e.Kind != simrt.KFile || underTmp(p) || !isPart(p) {
+				continue
+			}
+			want, ok := expected[p]
+			if !ok {
+				return Viol("stray-file", "splitter", "after fs operation #%d: %s is visible but is no part of any input", sn.JSeq, p)
+			}
+			if string(e.Data) != want {
+				return Viol("partial-output-visible", "splitter", "after fs operation #%d (%s %s): part %s at its final path holds %q, the complete part is %q", sn.JSeq, sn.Entry.Op, sn.Entry.Path, p, clip(e.Data), clip([]byte(want)))
+			}
+		}
+	}
 	if !completedOK(inc) {
 		return Skipped(Viol("no-completion", "", "workflow around FileSplitter did not complete: %s", endDesc(inc)))
 	}
 	final := WorkFiles(inc.Sim.FS.Root)
-	isPart := func(p string) bool {
-		return strings.Contains(p, ".txt.split_") && !strings.HasSuffix(p, ".audit.json") && !strings.Contains(p, ".use.")
-	}
 	for _, sn := range inc.Snaps {
 		c.CrashStates++
 		c.Fault("kill@state")
